@@ -3105,7 +3105,12 @@ where
                             Property::SessionExpiryInterval(val) => {
                                 if val.val() == 0 {
                                     self.need_store = false;
-                                    self.clear_store_related();
+                                    // (after a clean start the session began with the CONNECT:
+                                    // what has been handed over since then belongs to it and
+                                    // lives until the connection is closed)
+                                    if !self.new_session_at_connect {
+                                        self.clear_store_related();
+                                    }
                                 } else {
                                     self.need_store = true;
                                 }
